@@ -255,6 +255,124 @@ def r4(ctx):
     ctx.floor("C16.R4", 1)
 
 
+
+def eval_protect_task(f, path, hashes):
+    """the engine's gc-protect task (an async block in Engine::spawn) evaluated (K6') for one request of the collector.
+    hashes: "err" (content_hashes fails) or a list of "ok"/"err" items the iterator yields. Returns (result, log)."""
+    from . import feval as E, coll
+    C = coll.Collections(f)
+    st = {"req": 0}
+    log = []
+
+    def oracle(kind, name, payload, site):
+        if kind == "call":
+            t, args, it = payload
+            names = [it.tokname(a) for a in args]
+            full = (t["f"].get("full") or "") + (t["f"].get("path") or "")
+            if name == "channel" and "mpsc" in full:
+                return ("tuple", [E.Tok("hash-tx"), E.Tok("hash-rx")])
+            if name == "send" and "oneshot" in full:
+                log.append(("reply", names[1] if len(names) > 1 else "?"))
+                return E.Ok(E.UNIT)
+            if name == "content_hashes":
+                return E.Tok("content-hashes-future")
+            if name in ("recv", "send") and "mpsc" in full:
+                return E.Tok("%s(%s)" % (name, ",".join(n.strip("&*") for n in names)))
+            return C.handle(kind, name, payload, site)
+        if kind == "await":
+            if name.startswith("recv("):
+                st["req"] += 1
+                return E.Some(E.Tok("reply-tx")) if st["req"] == 1 else E.NONE
+            if name == "content-hashes-future":
+                if hashes == "err":
+                    return E.Err(E.Tok("hashes-error"))
+                return E.Ok(coll.seq("iter", [E.Ok(E.Tok("hash%d" % i)) if h == "ok" else E.Err(E.Tok("row-error%d" % i)) for i, h in enumerate(hashes)]))
+            if name.startswith("send(hash-tx"):
+                log.append(("send", name[len("send(hash-tx,"):-1]))
+                return E.Ok(E.UNIT)
+        return None
+    handler = E.Some(E.struct(f, "engine::ProtectCallbackHandler", **{"0": E.Tok("requests")}))
+    try:
+        out, it = E.run_coroutine(f, path, {"protect_cb": handler, "sync2": E.Tok("sync")}, {}, oracle)
+        return E.describe(out, f), log
+    except E.Unsupported as e:
+        return "UNSUPPORTED-FORM: %s" % e, log
+
+
+def eval_protect_cb(f, path, start_ok, reply_ok, stream):
+    """the protect callback handed to the blob store (async block in ProtectCallbackSender::into_cb) evaluated (K6'):
+    stream = list of "ok"/"err" items received before the channel closes. Returns (outcome, hashes inserted)."""
+    from . import feval as E, coll
+    C = coll.Collections(f)
+    st = {"i": 0}
+    live = []
+
+    def oracle(kind, name, payload, site):
+        if kind == "call":
+            t, args, it = payload
+            names = [it.tokname(a) for a in args]
+            full = (t["f"].get("full") or "") + (t["f"].get("path") or "")
+            if name == "channel" and "oneshot" in full:
+                return ("tuple", [E.Tok("reply-tx"), E.Tok("reply-rx")])
+            if name in ("send", "recv") and "mpsc" in full:
+                return E.Tok("%s(%s)" % (name, ",".join(n.strip("&*") for n in names)))
+            if name == "insert" and "HashSet" in full:
+                live.append(names[1])
+                return E.Int(1)
+            if name == "clone":
+                return args[0]
+            return C.handle(kind, name, payload, site)
+        if kind == "await":
+            if name.startswith("send(start_tx"):
+                return E.Ok(E.UNIT) if start_ok else E.Err(E.Tok("closed"))
+            if name == "reply-rx":
+                return E.Ok(E.Tok("hash-rx")) if reply_ok else E.Err(E.Tok("dropped"))
+            if name.startswith("recv(hash-rx"):
+                i = st["i"]
+                st["i"] += 1
+                if i >= len(stream):
+                    return E.NONE
+                return E.Some(E.Ok(E.Tok("hash%d" % i))) if stream[i] == "ok" else E.Some(E.Err(E.Tok("error%d" % i)))
+        return None
+    try:
+        out, it = E.run_coroutine(f, path, {"start_tx": E.Tok("start_tx"), "live": E.Tok("live")}, {}, oracle)
+        return E.describe(out, f), live
+    except E.Unsupported as e:
+        return "UNSUPPORTED-FORM: %s" % e, live
+
+
+def gc_protect(ctx):
+    f = ctx.facts
+    tasks = [b for p, b in f.bodies.items() if p.startswith("engine::Engine::spawn::") and b.rec.get("closure_kind") == "coroutine" and any(t["f"].get("name") == "content_hashes" for _, t in b.calls())]
+    cbs = [b for p, b in f.bodies.items() if p.startswith("engine::ProtectCallbackSender::into_cb::") and b.rec.get("closure_kind") == "coroutine"]
+    if len(tasks) != 1 or len(cbs) != 1:
+        from .engine import AnchorMissing
+        raise AnchorMissing("expected one gc-protect task calling content_hashes in Engine::spawn and one async block in ProtectCallbackSender::into_cb; found %d / %d" % (len(tasks), len(cbs)))
+    task, cb = tasks[0], cbs[0]
+    ctx.touch(task, cb)
+    # the task: a failure to list the hashes is forwarded to the collector (or the collector would see an empty, cleanly ended
+    # stream and delete everything the documents reference); otherwise every item - row errors included - is forwarded in order
+    got, log = eval_protect_task(f, task.path, "err")
+    sent = [e[1] for e in log if e[0] == "send"]
+    ctx.check(not got.startswith("UNSUPPORTED") and sent == ["Err(hashes-error)"] and ("reply", "hash-rx") in log, "C16.R5", task.path, "protect-task[content-hashes-fail]",
+              "task returns %s, replies %s, sends %s on the per-run channel; spec: the receiving end is handed to the collector and the error is sent on it" % (got, [e[1] for e in log if e[0] == "reply"], sent), task.sp)
+    for hs in ([], ["ok", "ok"], ["ok", "err", "ok"]):
+        got, log = eval_protect_task(f, task.path, hs)
+        sent = [e[1] for e in log if e[0] == "send"]
+        want = ["Ok(hash%d)" % i if h == "ok" else "Err(row-error%d)" % i for i, h in enumerate(hs)]
+        ctx.check(not got.startswith("UNSUPPORTED") and sent == want and ("reply", "hash-rx") in log, "C16.R5", task.path, "protect-task[rows=%s]" % ",".join(hs),
+                  "task returns %s, sends %s; spec: %s (every row of the content-hash iterator, errors included, reaches the collector)" % (got, sent, want), task.sp)
+    # the callback: Continue only if the request went through and every received item was a hash, all of them marked live
+    cells = [(True, True, []), (True, True, ["ok", "ok"]), (True, True, ["ok", "err"]), (True, True, ["err"]), (False, True, []), (True, False, [])]
+    for start_ok, reply_ok, stream in cells:
+        got, live = eval_protect_cb(f, cb.path, start_ok, reply_ok, stream)
+        good = start_ok and reply_ok and "err" not in stream
+        want = "Continue" if good else "Abort"
+        want_live = ["hash%d" % i for i, h in enumerate(stream) if h == "ok"] if good else None
+        ok = got == want and (want_live is None or live == want_live)
+        ctx.check(ok, "C16.R5", cb.path, "protect-callback[request=%s,reply=%s,stream=%s]" % ("ok" if start_ok else "fails", "ok" if reply_ok else "dropped", ",".join(stream) or "empty"),
+                  "returns %s with %s marked live; spec: %s%s (a collection run continues only with every document hash protected)" % (got, live, want, "" if want_live is None else " with %s" % want_live), cb.sp)
+
 def r5(ctx):
     f = ctx.facts
     a = f.body("store::fs::ContentHashesIterator::all")
@@ -285,15 +403,9 @@ def r5(ctx):
     ctx.touch(it)
     ok = any(t["f"].get("name") == "next" for _, t in it.calls())
     ctx.check(ok, "C16.R5", it.path, "forwards-every-row", "next() forwards the underlying range's next()", it.sp)
-    # gc protect task: errors abort, never continue
-    gcs = [b for b in f.bodies.values() if "gc_protect" in b.path or "protect_cb" in b.path or "ProtectCb" in b.path]
-    n = 0
-    for b in gcs:
-        for bi, si, s2 in b.statements():
-            if s2["k"] == "assign" and s2["r"][0] == "agg" and s2["r"][1][0] == "adt" and s2["r"][1][2] in ("Abort", "Continue", "Skip"):
-                n += 1
-    ctx.note("gc-protect bodies: %s" % [b.path for b in gcs][:8])
-    ctx.floor("C16.R5", 5)
+    # gc protect: the documents' hashes reach the collector, and any failure on the way aborts the collection run
+    gc_protect(ctx)
+    ctx.floor("C16.R5", 9)
 
 
 def run(ctx):
